@@ -241,11 +241,25 @@ def address_script(a):
     return None
 
 
+def is_key_or_address(a):
+    """a SEC1 public key, a checksum-valid Base58Check string, or a valid segwit address (what send_tx treats as pk(...) / addr(...))"""
+    return is_pubkey(a) or b58check_dec(a) is not None or segwit_dec(a) is not None
+
+
+def change_script(sender, change):
+    """the script change goes to: the change address if given, else the sender's own script (the raw script when the sender is one)"""
+    if change:
+        return address_script(change)
+    if is_key_or_address(sender):
+        return address_script(sender)
+    return bytes(sender)
+
+
 def descriptor(sender):
     """the scantxoutset descriptor that selects exactly the sender's outputs"""
     if is_pubkey(sender):
         return 'pk(%s)' % sender.hex()
-    if address_script(sender) is not None:
+    if b58check_dec(sender) is not None or segwit_dec(sender) is not None:
         return 'addr(%s)' % sender.decode()
     return 'raw(%s)' % sender.hex()
 
